@@ -12,178 +12,7 @@
 // The pattern is a symbolic per-line span table (every set of match spans
 // inside each line's content).  Child module of grep_printer::summary.
 
-use grep_matcher::Match;
-
-const NONE: usize = usize::MAX;
-const MAXL: usize = 3;
-const MAXC: usize = 2;
-const MAXM: usize = MAXC + 3;
-
-#[derive(Debug)]
-struct FatErr([u64; 4]);
-impl std::fmt::Display for FatErr {
-    fn fmt(&self, _f: &mut std::fmt::Formatter<'_>) -> std::fmt::Result {
-        Ok(())
-    }
-}
-
-/// The haystack's lines (content of line k starts with the letter 'a'+k, or is
-/// empty) and, per line, a symbolic table "a match starting at content offset
-/// s ends at e[k][s]" (matches never contain the terminator).
-struct LineTables {
-    nl: usize,
-    lstart: [usize; MAXL],
-    clen: [usize; MAXL],
-    e: [[usize; MAXC + 1]; MAXL],
-}
-
-impl LineTables {
-    fn any(hay: &'static [u8]) -> LineTables {
-        let mut t = LineTables { nl: 0, lstart: [0; MAXL], clen: [0; MAXL], e: [[NONE; MAXC + 1]; MAXL] };
-        let mut i = 0;
-        let mut start = 0;
-        while i <= hay.len() {
-            if i == hay.len() || hay[i] == b'\n' {
-                if i > start || i < hay.len() {
-                    t.lstart[t.nl] = start;
-                    t.clen[t.nl] = i - start;
-                    t.nl += 1;
-                }
-                start = i + 1;
-            }
-            i += 1;
-        }
-        let mut first_empty = NONE;
-        let mut k = 0;
-        while k < MAXL {
-            if k < t.nl {
-                let mut s = 0;
-                while s <= MAXC {
-                    if s <= t.clen[k] {
-                        let has: bool = kani::any();
-                        if has {
-                            let end: usize = kani::any();
-                            kani::assume(end >= s && end <= t.clen[k]);
-                            t.e[k][s] = end;
-                        }
-                    }
-                    s += 1;
-                }
-                if t.clen[k] == 0 {
-                    // lines with identical (empty) content get identical answers
-                    if first_empty == NONE {
-                        first_empty = k;
-                    } else {
-                        kani::assume(t.e[k][0] == t.e[first_empty][0]);
-                    }
-                }
-            }
-            k += 1;
-        }
-        t
-    }
-
-    fn first_in_line(&self, k: usize, from: usize, upto: usize) -> Option<(usize, usize)> {
-        let mut s = 0;
-        let mut found: Option<(usize, usize)> = None;
-        while s <= MAXC {
-            if s >= from && s <= self.clen[k] && found.is_none() && self.e[k][s] != NONE && self.e[k][s] <= upto {
-                found = Some((s, self.e[k][s]));
-            }
-            s += 1;
-        }
-        found
-    }
-
-    /// the regex library's iteration over line k's content: number of matches
-    fn count_in_line(&self, k: usize) -> usize {
-        let n = self.clen[k];
-        let mut cnt = 0usize;
-        let mut last_end = 0usize;
-        let mut last_match_end: usize = NONE;
-        let mut guard = 0;
-        while guard < 2 * MAXC + 4 {
-            guard += 1;
-            if last_end > n {
-                break;
-            }
-            let mut mm = match self.first_in_line(k, last_end, n) {
-                None => break,
-                Some(x) => x,
-            };
-            if mm.0 == mm.1 && mm.1 == last_match_end {
-                if last_end + 1 > n {
-                    break;
-                }
-                mm = match self.first_in_line(k, last_end + 1, n) {
-                    None => break,
-                    Some(x) => x,
-                };
-            }
-            last_end = mm.1;
-            last_match_end = mm.1;
-            cnt += 1;
-        }
-        cnt
-    }
-}
-
-impl Matcher for LineTables {
-    type Captures = grep_matcher::NoCaptures;
-    type Error = FatErr;
-
-    fn find_at(&self, h: &[u8], at: usize) -> Result<Option<Match>, FatErr> {
-        let n = h.len();
-        // Which line is being asked about?  The searcher hands over one line's
-        // content (offsets relative to the line); the printer hands over the
-        // buffer up to the end of the reported line's content with `at` inside
-        // that line (absolute offsets).  A slice that starts with the letter
-        // of line k > 0 is line k; everything else is a prefix of the buffer.
-        let mut k = NONE;
-        let mut base = 0usize;
-        let idx = if n > 0 { h[0].wrapping_sub(b'a') as usize } else { NONE };
-        if n > 0 && idx > 0 && idx < self.nl {
-            k = idx;
-        } else {
-            let mut j = 0;
-            while j < MAXL {
-                if j < self.nl && self.lstart[j] <= at {
-                    k = j;
-                    base = self.lstart[j];
-                }
-                j += 1;
-            }
-            if n == 0 {
-                // an empty slice: some empty line (all share one table)
-                let mut j = 0;
-                k = NONE;
-                while j < MAXL {
-                    if j < self.nl && self.clen[j] == 0 && k == NONE {
-                        k = j;
-                    }
-                    j += 1;
-                }
-                base = 0;
-            }
-        }
-        if k == NONE || at < base || n < base {
-            return Ok(None);
-        }
-        match self.first_in_line(k, at - base, n - base) {
-            None => Ok(None),
-            Some((s, e)) => Ok(Some(Match::new(base + s, base + e))),
-        }
-    }
-
-    fn new_captures(&self) -> Result<grep_matcher::NoCaptures, FatErr> {
-        Ok(grep_matcher::NoCaptures::new())
-    }
-}
-
-fn fixed_instant() -> Instant {
-    // Instant::now() is a foreign call; time is not part of the claim
-    unsafe { std::mem::zeroed() }
-}
+include!(concat!(env!("RG_VERIF_KANI_DIR"), "/printer/linetables.rs"));
 
 fn check_summary(hay: &'static [u8], kind: SummaryKind, invert: bool) {
     let m = LineTables::any(hay);
@@ -237,17 +66,6 @@ fn check_summary(hay: &'static [u8], kind: SummaryKind, invert: bool) {
     kani::cover!(lines >= 2 && (invert || matches > lines), "reach-end");
     std::mem::forget(searcher);
     std::mem::forget(printer);
-}
-
-/// writer that discards (the counters are read from the sink's own state)
-struct NoSink;
-impl io::Write for NoSink {
-    fn write(&mut self, b: &[u8]) -> io::Result<usize> {
-        Ok(b.len())
-    }
-    fn flush(&mut self) -> io::Result<()> {
-        Ok(())
-    }
 }
 
 #[kani::proof]
